@@ -54,8 +54,18 @@ def rand_content(rng, nrows=None, ty=None, **kw):
 
 def rand_labels(rng, n, kind=None, pattern=None):
     kind = kind or rng.choice(["int", "str"])
-    pattern = pattern or rng.choice(["range", "unique_sorted", "unique_unsorted", "dup_sorted", "dup_unsorted", "desc_dups"])
-    if pattern == "range":
+    pattern = pattern or rng.choice(["range", "unique_sorted", "unique_unsorted", "dup_sorted", "dup_unsorted", "desc_dups",
+                                      "arith"])
+    if pattern == "arith":
+        # an arithmetic progression not starting at 0 / with another step: becomes a genuine non-default RangeIndex
+        a0, k = rng.randint(1, 5), rng.choice([1, 2, 3, -1])
+        vals = [a0 + k * i + (n if k < 0 else 0) for i in range(n)]
+    elif pattern == "extreme":
+        # 64-bit identifiers over the whole int64 range (neighbours in sorted order may be >= 2**63 apart), repeated
+        pool = [-(2**63), -(2**62) - 3, -(2**62), -7, 0, 5, 2**62, 2**62 + 1, 2**63 - 1]
+        vals = [rng.choice(pool) for _ in range(n)]
+        kind = "int"
+    elif pattern == "range":
         vals = list(range(n))
     elif pattern.startswith("unique"):
         vals = rng.sample(range(-5, 3 * n + 5), n)
@@ -70,7 +80,7 @@ def rand_labels(rng, n, kind=None, pattern=None):
             vals.sort(reverse=True)
     if kind == "str":
         vals = [f"k{v:+03d}" for v in vals]
-        if pattern.endswith("_sorted") or pattern == "range":
+        if pattern.endswith("_sorted") or pattern in ("range", "arith"):
             vals.sort()
         if pattern == "desc_dups":
             vals.sort(reverse=True)
@@ -265,5 +275,16 @@ def mk_ext(ca):
     return NestedExtensionArray(ca)
 
 
+def as_index(index):
+    """labels -> pandas index; an arithmetic progression of ints becomes a genuine `pd.RangeIndex` (what slicing a
+    default-indexed object leaves: start and step need not be 0 and 1)"""
+    idx = list(index)
+    if len(idx) >= 2 and all(isinstance(v, int) and not isinstance(v, bool) for v in idx):
+        step = idx[1] - idx[0]
+        if step != 0 and all(b - a == step for a, b in zip(idx, idx[1:])):
+            return pd.RangeIndex(idx[0], idx[0] + step * len(idx), step)
+    return pd.Index(idx)
+
+
 def mk_series(ca, index, name="nest"):
-    return pd.Series(NestedExtensionArray(ca), index=pd.Index(index), name=name)
+    return pd.Series(NestedExtensionArray(ca), index=as_index(index), name=name)
